@@ -3,11 +3,12 @@ with scripted rail actions, a prompt-recording fake LLM and deterministic embedd
 
 A *case* (JSON):
   {"ver": "1.0"|"2.x", "dialog": bool, "exc": bool, "in": [rail ids in configured order], "out": [rail ids],
-   "carry": "messages"|"state"|"fresh" (messages, but no events cache: stateless deployment), "gen": "std"|"pt"|"ptp"|"ptfn"|"single" (1.0 generation mode), "front": bool,
+   "carry": "messages"|"state"|"fresh" (messages, but no events cache: stateless deployment), "trail": null|"system"|"context" (1.0: a message of that role follows the user message in every request), "gen": "std"|"pt"|"ptp"|"ptfn"|"single" (1.0 generation mode), "front": bool,
    "usaid": "something"|"plain"|"regex" (2.x without dialog rails: how the answering flow waits for the user),
    "turns": [{"user": str, "bot": str, "intent": "flow"|"free"|"act",
               "vin":  [[id, verdict]..], "vout": [[id, verdict]..], "act_fault": bool, "retr_fault": bool,
-              "exc_kind": one of EXC_KINDS (the exception value every scripted fault of the turn raises)}]}
+              "exc_kind": one of EXC_KINDS (the exception value every scripted fault of the turn raises),
+              "opts": null | {"input": bool, "output": bool} (1.0: `options={"rails": {...}}` of THIS call; null = the call passes no options)}]}
   verdict = "a" (accept) | "r" (reject) | ["w", text] (rewrite) | "f" (the rail's action raises)
 
 An *observation*: per turn {"steps": [...], "reply": {"role", "content"|"exc"}, "raised": None|str}
@@ -106,6 +107,8 @@ rails:
 PT_MODES = ("pt", "ptp", "ptfn")
 FRONT_SYSTEM = {"role": "system", "content": "SYSTEM-FRONT keep answers short"}
 FRONT_CONTEXT = {"role": "context", "content": {"verif_front_marker": "ctx"}}
+TRAIL_SYSTEM = {"role": "system", "content": "SYSTEM-TRAIL answer politely"}
+TRAIL_CONTEXT = {"role": "context", "content": {"verif_trail_marker": "ctx"}}
 
 YAML_V2 = """
 colang_version: "2.x"
@@ -142,8 +145,44 @@ rails:
 """
 
 
+# Pure-Colang rails (Colang 1.0, rail ids PURE_BASE..PURE_BASE+49): the verdict is computed by the FLOW from its own view of
+# the variable (`if "BLK<i>" in $bot_message`), not by an action from the action-side context.  The flows' context is rebuilt
+# from the visible history, the actions' context from all ContextUpdate events - the two kinds of rails are the two readers.
+# To make the call observable the flow copies what it sees into `$rail_seen` and executes a note action, which is also passed
+# the variable as an action parameter (resolved on the action side): it records the flow's view, or both if they differ.
+PURE_BASE = 50
+
+
+def is_pure(i):
+    return PURE_BASE <= i < PURE_BASE + 50
+
+
+def pure_marker(i):
+    return f"BLK{i}"
+
+
+def v1_pure_rail_flow(kind, i):
+    var = "user_message" if kind == "in" else "bot_message"
+    exc = "InputRailException" if kind == "in" else "OutputRailException"
+    name = f"scripted {kind} rail r{i}"
+    return f"""
+define flow {name}
+  $rail_seen = ${var}
+  execute rail_{kind}_{i}_note(text=${var})
+
+  if "{pure_marker(i)}" in ${var}
+    if $config.enable_rails_exceptions
+      create event {exc}(message="blocked by {name}")
+    else
+      bot refuse to respond
+    stop
+"""
+
+
 def v1_rail_flow(kind, i):
     """A rail flow of the same shape as the shipped library rails (self check input / mask sensitive data)."""
+    if is_pure(i):
+        return v1_pure_rail_flow(kind, i)
     var = "user_message" if kind == "in" else "bot_message"
     exc = "InputRailException" if kind == "in" else "OutputRailException"
     name = f"scripted {kind} rail r{i}"
@@ -322,6 +361,20 @@ def _make_check(kind, i):
     return _system_action(check)
 
 
+def _make_note(kind, i):
+    """The note action of a pure-Colang rail: records what the flow saw (`$rail_seen`, set by the flow from its own context);
+    if the same variable resolved on the action side (`text=`) differs, both are recorded."""
+    async def note(text=None, context: dict = None):
+        seen = (context or {}).get("rail_seen")
+        if seen != text:
+            seen = f"<flow-side {seen!r} / action-side {text!r}>"
+        _STATE["rec"].append(["rail", kind, i, seen if isinstance(seen, (str, type(None))) else repr(seen)])
+        return True
+
+    note.__name__ = f"rail_{kind}_{i}_note"
+    return _system_action(note)
+
+
 def _make_mask(kind, i):
     async def mask(context: dict = None):
         var = "user_message" if kind == "in" else "bot_message"
@@ -441,7 +494,9 @@ def get_rails(case):
         rails = LLMRails(cfg, llm=_make_llm())
         for kind, ids in (("in", case["in"]), ("out", case["out"])):
             for i in sorted(set(ids)):
-                if case["ver"] == "1.0":
+                if case["ver"] == "1.0" and is_pure(i):
+                    rails.register_action(_make_note(kind, i), f"rail_{kind}_{i}_note")
+                elif case["ver"] == "1.0":
                     rails.register_action(_make_check(kind, i), f"rail_{kind}_{i}_check")
                     rails.register_action(_make_mask(kind, i), f"rail_{kind}_{i}_mask")
                 else:
@@ -508,10 +563,19 @@ async def _run(case):
     if case.get("front") and case["ver"] == "1.0":
         # a context message is not a chat message: in passthrough chat mode the request is the prompt, so only the system one
         front = [FRONT_SYSTEM] if gen in PT_MODES else [FRONT_CONTEXT, FRONT_SYSTEM]
+    # "trail": a message of another role AFTER the new user message in every request (a client that appends a system reminder
+    # or per-request context at the end of the list)
+    trail = []
+    if case.get("trail") and case["ver"] == "1.0":
+        trail = [TRAIL_SYSTEM] if case["trail"] == "system" else [TRAIL_CONTEXT]
     for t in case["turns"]:
         _STATE["script"] = t
         _STATE["rec"] = rec = []
         o = {"steps": rec, "reply": None, "raised": None}
+        kw = {}
+        if t.get("opts") is not None and case["ver"] == "1.0" and gen != "ptp":
+            # explicit generation options of THIS call (a call without "opts" passes none: all rails enabled)
+            kw["options"] = {"rails": {"input": bool(t["opts"].get("input", True)), "output": bool(t["opts"].get("output", True))}}
         try:
             with contextlib.redirect_stdout(io.StringIO()):
                 if gen == "ptp":
@@ -525,22 +589,26 @@ async def _run(case):
                     # the usual client: append the user message to its own list and pass that list (the passthrough
                     # branch overwrites the last entry in place with the rewritten text - the client's copy follows)
                     messages.append({"role": "user", "content": t["user"]})
+                    messages.extend(trail)
                     try:
-                        res = await rails.generate_async(messages=front + messages)
+                        res = await rails.generate_async(messages=front + messages, **kw)
                     except BaseException:
-                        messages.pop()
+                        del messages[-1 - len(trail):]
                         raise
                     rep = _canon_reply(res)
                     if gen in PT_MODES and rep["role"] == "exception":
                         # passthrough chat mode: the request IS the prompt, an {"role": "exception"} entry cannot be sent to
                         # the LLM ("Unknown message type") - the client discards the failed exchange
-                        messages.pop()
+                        del messages[-1 - len(trail):]
                     else:
                         # the client keeps whatever `generate` returned in its history (as tests/utils.py::TestChat
                         # does), also a {"role": "exception"} reply: the events-history cache is keyed by it
-                        messages.append(dict(res) if isinstance(res, dict) else {"role": "assistant", "content": rep["content"]})
+                        if hasattr(res, "response") and isinstance(res.response, list) and res.response:
+                            messages.append(dict(res.response[0]))  # a call with options returns a GenerationResponse
+                        else:
+                            messages.append(dict(res) if isinstance(res, dict) else {"role": "assistant", "content": rep["content"]})
                 else:
-                    res = await rails.generate_async(messages=front + [{"role": "user", "content": t["user"]}], state=state)
+                    res = await rails.generate_async(messages=front + [{"role": "user", "content": t["user"]}] + trail, state=state, **kw)
                     rep = _canon_reply(res)
                     state = res.state
             o["reply"] = rep
